@@ -299,6 +299,7 @@ pub fn property() -> Property {
         id: "C02",
         cases,
         clauses: &["own-response", "resolves-after-termination", "error-after-termination", "await-yields-termination-result", "join-none-on-failure", "join-some-on-graceful"],
+        full_rerun_check: true,
         assumptions: &[
             "termination = the step in which the actor task ends; graceful = it ended without cancellation after stopped() finished",
             "a fire-and-forget send that was parked for mailbox space when the actor terminated may resolve either way (Ok means 'accepted into the mailbox' throughout the API); it only has to resolve",
